@@ -23,6 +23,9 @@ numeric = Union[int, float]
 
 TACTICS_ORDER = [1, 2, 3, 4, 5]  # noqa: WPS407
 
+# relative tolerance when comparing an LP optimum against a bound (absorbs solver round-off)
+CONTAINMENT_TOLERANCE = 1e-6
+
 
 class PolyhedralTerm(Term):
     """Polyhedral terms are linear inequalities over a list of variables."""
@@ -1117,7 +1120,7 @@ class PolyhedralTermList(TermList):  # noqa: WPS338
                 is_refinement = False
                 break
             else:
-                if -res["fun"] <= b_temp:  # noqa: WPS309
+                if -res["fun"] <= b_temp + CONTAINMENT_TOLERANCE * (1 + abs(b_temp)):  # noqa: WPS309
                     logging.debug("Redundant constraint")
                 else:
                     is_refinement = False
